@@ -205,6 +205,10 @@ type Property struct {
 	// Replicas is the number of independent processes groups that each run the
 	// whole case list (digests are compared across replicas). 0 means 1.
 	Replicas func(tier string) int
+	// ReplicaOrders makes replica r > 0 run its cases in a different order than
+	// replica 0 (reversed for odd r), so that anything that survives a call shows
+	// up as a cross-replica digest difference.
+	ReplicaOrders bool
 	// AltBinLastReplica names a second child binary (e.g. built with another Go
 	// toolchain); when it exists in the bin directory the last replica runs it.
 	AltBinLastReplica string
